@@ -119,7 +119,12 @@ fn build_stream(seed: u64) -> Stream {
         let c = cs.choose("consumer", 2) as usize;
         let ch = (c + 1) as u16;
         dtag[c] += 1;
-        let len = *pick(cs, "body_len", &[0usize, 1, 10, 500, 4000, 4089, 5000, 9000]);
+        let mut len = *pick(cs, "body_len", &[0usize, 1, 10, 500, 4000, 4089, 5000, 9000]);
+        // now and then one body frame far beyond every buffer quantum of the reader (frame_max is 131072 here)
+        let big = cs.choose("big_frame", 14) == 0;
+        if big {
+            len = *pick(cs, "big_len", &[16_377usize, 17_000, 40_000, 70_000]);
+        }
         let body: Vec<u8> = (0..len).map(|i| (i as u8).wrapping_mul(13).wrapping_add(dtag[c] as u8)).collect();
         let mut f = Vec::new();
         wire::method(&mut f, ch, &AMQPClass::Basic(B::Deliver(basic::Deliver { consumer_tag: tags[c].to_string(), delivery_tag: dtag[c], redelivered: false, exchange: "ex".into(), routing_key: format!("rk{}", dtag[c]) })));
@@ -129,7 +134,7 @@ fn build_stream(seed: u64) -> Stream {
         push_frame(bytes, boundaries, f);
         let mut pos = 0;
         while pos < len {
-            let piece = match cs.choose("piece", 3) {
+            let piece = match if big { 0 } else { cs.choose("piece", 3) } {
                 0 => len - pos,
                 1 => (len - pos).min(4088),
                 _ => (len - pos).min(1 + cs.choose("piece_small", 600) as usize),
@@ -221,7 +226,7 @@ impl Scenario for C06 {
         "fault_enumeration"
     }
     fn rule(&self) -> String {
-        "Per seeded server stream (2-12 items of real frames: heartbeats, blocked notices, acks, deliveries to two consumers with bodies 0..9000 bytes in frames from a few bytes to beyond the 4096-byte read quantum; ended by a bad end octet (method or body frame) / unknown frame type / short arguments, by EOF, or by Connection.Close, followed by further valid deliveries that must not be acted on) the passive client (two consumers blocked on their queues) receives the stream under many segmentations: whole; every single cut (thorough: every offset; quick: every frame boundary +-1 and every 29th offset); random multi-cuts; 1-byte dribble for short streams; each segment 5 ms of simulated time after the previous one, with short reads. Oracle: each consumer obtains exactly the deliveries before the ending, intact and in order (nothing after it), Connection::close reports MalformedFrame / UnexpectedSocketClose / ServerClosedConnection as the stream dictates, and every delivery is obtained after the segment carrying the last byte of its last frame arrived and before the next segment arrives (\"as soon as its last byte has arrived\"). Differential by construction: all segmentations of one stream are compared with the same reference. Non-trivial = a cut fell strictly inside a frame; distinct = (stream seed, cut set).".to_string()
+        "Per seeded server stream (2-12 items of real frames: heartbeats, blocked notices, acks, deliveries to two consumers with bodies 0..9000 bytes in frames from a few bytes to beyond the 4096-byte read quantum, now and then one body frame of 16-70 kB; ended by a bad end octet (method or body frame) / unknown frame type / short arguments, by EOF, or by Connection.Close, followed by further valid deliveries that must not be acted on) the passive client (two consumers blocked on their queues) receives the stream under many segmentations: whole; every single cut (thorough: every offset; quick: every frame boundary +-1 and every 29th offset); random multi-cuts; 1-byte dribble for short streams; each segment 5 ms of simulated time after the previous one, with short reads. Oracle: each consumer obtains exactly the deliveries before the ending, intact and in order (nothing after it), Connection::close reports MalformedFrame / UnexpectedSocketClose / ServerClosedConnection as the stream dictates, and every delivery is obtained after the segment carrying the last byte of its last frame arrived and before the next segment arrives (\"as soon as its last byte has arrived\"). Differential by construction: all segmentations of one stream are compared with the same reference. Non-trivial = a cut fell strictly inside a frame; distinct = (stream seed, cut set).".to_string()
     }
     fn plan(&self, thorough: bool, seed: u64) -> Vec<CaseSpec> {
         let n_streams = if thorough { 120 } else { 30 };
@@ -232,7 +237,8 @@ impl Scenario for C06 {
             // 0 = whole
             v.push(CaseSpec { family: "cuts".into(), seed: s, params: vec![0], choices: None });
             let mut offs: Vec<usize> = Vec::new();
-            let stride = if thorough { 1 } else { 29 };
+            // streams with a very large frame: every 7th (97th) offset, plus every frame boundary +-1 as always
+            let stride = if thorough { if l > 14_000 { 7 } else { 1 } } else if l > 14_000 { 97 } else { 29 };
             let mut k = 1;
             while k < l {
                 offs.push(k);
@@ -330,6 +336,7 @@ impl Scenario for C06 {
         let mut rep = CaseReport::default();
         fill_common(&mut rep, &res, &world);
         let mode_name = ["whole", "single cut", "random cuts", "1-byte dribble", "preamble glued to OpenOk"][mode as usize % 5];
+        rep.count("c06.runs_on_streams_with_a_frame_over_16k", st.boundaries.windows(2).any(|w| w[1] - w[0] > 16_384) as u64);
         rep.sample = serde_json::json!({"stream_seed": spec.seed, "stream_bytes": l, "frames": st.boundaries.len() - 1, "ending": st.ending, "expected_deliveries": st.deliveries.len(), "cuts": if cuts.len() > 20 { vec![cuts.len()] } else { cuts.clone() }, "mode": mode_name});
         for p in &res.run.panics {
             rep.violate("panic", format!("{}@{}", p.thread, p.location), format!("{} panicked: {}", p.thread, p.message));
